@@ -11,6 +11,7 @@ the emission of one (key, target) connection); the residual glue statements are 
   gen_*_skeleton_ok    verbatim statement lists of the glue (dispatch, connect/disconnect, dict statements)
 """
 import ast
+import re
 
 import pyexpr
 import translate as T
@@ -132,21 +133,60 @@ def _args(fn):
     return [a.arg for a in fn.args.args]
 
 
+_MSG = re.compile(r"raise (\w+)\((['\"]).*?\2\)")
+
+
+def _norm(fn, keep=()):
+    """statements of fn modulo local-variable names, docstrings, comments, formatting, annotation-only
+    differences of assignments and the text of exception messages (pyexpr.normalized_statements)"""
+    import copy
+
+    fn = copy.deepcopy(fn)
+    for n in ast.walk(fn):
+        for f, v in ast.iter_fields(n):
+            if isinstance(v, list):
+                for i, x in enumerate(v):
+                    if isinstance(x, ast.AnnAssign) and x.value is not None and isinstance(x.target, ast.Name):
+                        v[i] = ast.copy_location(ast.Assign(targets=[x.target], value=x.value), x)
+    ast.fix_missing_locations(fn)
+    return [_MSG.sub(r"raise \1(<msg>)", t) for t in pyexpr.normalized_statements(fn, keep=keep)]
+
+
+def _pair_names(st, rhs):
+    """`a, b = <rhs>` -> (a, b)"""
+    if not (isinstance(st, ast.Assign) and len(st.targets) == 1 and isinstance(st.targets[0], ast.Tuple)
+            and len(st.targets[0].elts) == 2 and all(isinstance(x, ast.Name) for x in st.targets[0].elts)
+            and ast.unparse(st.value) == rhs):
+        raise T.Broken(f"expected `<a>, <b> = {rhs}`")
+    return tuple(x.id for x in st.targets[0].elts)
+
+
+_RESERVED = {"torus", "offsets", "fun", "let", "in", "if", "then", "else", "match", "with", "end", "forall", "exists",
+             "map", "combine", "forallb", "flat_map", "dimensions", "true", "false", "mod", "fst", "snd"}
+
+
+def _fresh(names):
+    if len(set(names)) != len(names) or any(n in _RESERVED or not n.isidentifier() for n in names):
+        raise T.Broken(f"local names {names} cannot be used as Gallina binders")
+
+
 # ------------------------------------------------------------------ Grid._connect_single_cell_2d
 def c_connect_2d():
     fn = T._find_func(_cls(GRID, "Grid"), "_connect_single_cell_2d")
     if _args(fn) != ["self", "cell", "offsets"]:
         raise T.Broken("unexpected parameters of _connect_single_cell_2d")
     st = _stmts(fn)
-    if len(st) != 3 or ast.unparse(st[0]) != "i, j = cell.coordinate" or ast.unparse(st[1]) != "height, width = self.dimensions" \
-            or not isinstance(st[2], ast.For):
-        raise T.Broken("expected `i, j = cell.coordinate; height, width = self.dimensions; for ... in offsets`")
+    if len(st) != 3 or not isinstance(st[2], ast.For):
+        raise T.Broken("expected `<i>, <j> = cell.coordinate; <height>, <width> = self.dimensions; for ... in offsets`")
+    i, j = _pair_names(st[0], "cell.coordinate")
+    h, w = _pair_names(st[1], "self.dimensions")
+    _fresh([i, j, h, w])
     tr = GTr(bool_names=["torus"], attr_map={"torus": "torus"}, list_names={"offsets": "tuple"})
     try:
         t = tr.collect([st[2]], "<none>")
     except pyexpr.Unsupported as e:
         raise T.Broken(f"_connect_single_cell_2d outside the translated subset: {e}") from None
-    return ("Definition gen_connect_2d (torus : bool) (height width i j : Z) (offsets : list (Z * Z))\n"
+    return (f"Definition gen_connect_2d (torus : bool) ({h} {w} {i} {j} : Z) (offsets : list (Z * Z))\n"
             f"  : list ((Z * Z) * (Z * Z)) :=\n  {t}.")
 
 
@@ -156,18 +196,21 @@ def c_connect_nd():
     if _args(fn) != ["self", "cell", "offsets"]:
         raise T.Broken("unexpected parameters of _connect_single_cell_nd")
     st = _stmts(fn)
-    if len(st) != 2 or ast.unparse(st[0]) != "coord = cell.coordinate" or not isinstance(st[1], ast.For):
-        raise T.Broken("expected `coord = cell.coordinate; for d_coord in offsets`")
+    if len(st) != 2 or not (isinstance(st[0], ast.Assign) and len(st[0].targets) == 1 and isinstance(st[0].targets[0], ast.Name)
+                            and ast.unparse(st[0].value) == "cell.coordinate") or not isinstance(st[1], ast.For):
+        raise T.Broken("expected `<coord> = cell.coordinate; for <d> in offsets`")
+    cname = st[0].targets[0].id
     loop = st[1]
     if not (isinstance(loop.target, ast.Name) and isinstance(loop.iter, ast.Name) and loop.iter.id == "offsets"):
         raise T.Broken("loop is not `for <name> in offsets`")
+    _fresh([cname, loop.target.id])
     tr = GTr(bool_names=["torus"], attr_map={"torus": "torus", "dimensions": "dimensions"},
-             list_names={"offsets": "Z"}, zlist_names=["coord", "dimensions", loop.target.id])
+             list_names={"offsets": "Z"}, zlist_names=[cname, "dimensions", loop.target.id])
     try:
         t = tr.collect([loop], "<none>")
     except pyexpr.Unsupported as e:
         raise T.Broken(f"_connect_single_cell_nd outside the translated subset: {e}") from None
-    return ("Definition gen_connect_nd (torus : bool) (dimensions coord : list Z) (offsets : list (list Z))\n"
+    return (f"Definition gen_connect_nd (torus : bool) (dimensions {cname} : list Z) (offsets : list (list Z))\n"
             f"  : list (list Z * list Z) :=\n  {t}.")
 
 
@@ -186,75 +229,81 @@ def _zl(v):
     return "[" + "; ".join(T._z(x) for x in v) + "]"
 
 
-LOOP_ND = "for cell in self.all_cells:\n    self._connect_single_cell_nd(cell, offsets)"
+def _hole(node, name):
+    """replace `node` (found by identity) inside its parent lists/fields by a Name hole"""
+    return ast.Name(id=name, ctx=ast.Load())
 
 
 def c_moore_nd():
-    fn = T._find_func(_cls(GRID, "OrthogonalMooreGrid"), "_connect_cells_nd")
+    import copy
+
+    fn = copy.deepcopy(T._find_func(_cls(GRID, "OrthogonalMooreGrid"), "_connect_cells_nd"))
     st = _stmts(fn)
     if len(st) != 3:
         raise T.Broken("expected three statements")
     a = st[0]
-    if not (isinstance(a, ast.Assign) and ast.unparse(a.targets[0]) == "offsets" and isinstance(a.value, ast.Call)
-            and ast.unparse(a.value.func) == "list" and len(a.value.args) == 1):
-        raise T.Broken("first statement is not offsets = list(product(...))")
-    p = a.value.args[0]
-    if not (isinstance(p, ast.Call) and ast.unparse(p.func) == "product" and len(p.args) == 1 and len(p.keywords) == 1
-            and p.keywords[0].arg == "repeat" and ast.unparse(p.keywords[0].value) == "len(self.dimensions)"):
-        raise T.Broken("not product(<axis>, repeat=len(self.dimensions))")
-    axis = _int_list(p.args[0])
-    if ast.unparse(st[1]) != "offsets.remove((0,) * len(self.dimensions))" or ast.unparse(st[2]) != LOOP_ND:
-        raise T.Broken("centre removal / connect loop changed")
+    if not (isinstance(a, ast.Assign) and isinstance(a.value, ast.Call) and ast.unparse(a.value.func) == "list"
+            and len(a.value.args) == 1 and isinstance(a.value.args[0], ast.Call)
+            and ast.unparse(a.value.args[0].func) == "product" and len(a.value.args[0].args) == 1):
+        raise T.Broken("first statement is not <offsets> = list(product(<axis>, ...))")
+    axis = _int_list(a.value.args[0].args[0])
+    a.value.args[0].args[0] = ast.Name(id="AXIS", ctx=ast.Load())
+    got = _norm(fn, keep=("AXIS",))
+    want = ["v0 = list(product(AXIS, repeat=len(self.dimensions)))", "v0.remove((0,) * len(self.dimensions))",
+            "for v1 in self.all_cells:\n    self._connect_single_cell_nd(v1, v0)"]
+    if got != want:
+        raise T.Broken("Moore n-D construction changed: " + next((f"{x!r} != {y!r}" for x, y in zip(got, want) if x != y), "length"))
     return f"Definition gen_moore_axis : list Z := {_zl(axis)}."
 
 
 def c_vn_nd():
-    fn = T._find_func(_cls(GRID, "OrthogonalVonNeumannGrid"), "_connect_cells_nd")
-    st = _stmts(fn)
-    want0 = "offsets: list[tuple[int, ...]] = []"
-    if len(st) != 4 or ast.unparse(st[0]) != want0 or ast.unparse(st[1]) != "dimensions = len(self.dimensions)" \
-            or ast.unparse(st[3]) != LOOP_ND:
-        raise T.Broken("statement skeleton of the von Neumann n-D construction changed")
-    outer = st[2]
-    if not (isinstance(outer, ast.For) and ast.unparse(outer.target) == "dim" and ast.unparse(outer.iter) == "range(dimensions)"
-            and len(outer.body) == 1 and isinstance(outer.body[0], ast.For)):
-        raise T.Broken("outer loop is not `for dim in range(dimensions)`")
-    inner = outer.body[0]
-    if ast.unparse(inner.target) != "delta":
-        raise T.Broken("inner loop variable")
-    deltas = _int_list(inner.iter)
-    body = [ast.unparse(x) for x in inner.body]
-    if body != ["offset = [0] * dimensions", "offset[dim] = delta", "offsets.append(tuple(offset))"]:
-        raise T.Broken("inner loop body changed")
+    import copy
+
+    fn = copy.deepcopy(T._find_func(_cls(GRID, "OrthogonalVonNeumannGrid"), "_connect_cells_nd"))
+    inner = [n for n in ast.walk(fn) if isinstance(n, ast.For) and isinstance(n.iter, ast.List)]
+    if len(inner) != 1:
+        raise T.Broken("expected one loop over a literal list of deltas")
+    deltas = _int_list(inner[0].iter)
+    inner[0].iter = ast.Name(id="DELTAS", ctx=ast.Load())
+    got = _norm(fn, keep=("DELTAS",))
+    want = ["v0 = []", "v1 = len(self.dimensions)",
+            "for v2 in range(v1):\n    for v4 in DELTAS:\n        v5 = [0] * v1\n        v5[v2] = v4\n        v0.append(tuple(v5))",
+            "for v3 in self.all_cells:\n    self._connect_single_cell_nd(v3, v0)"]
+    if got != want:
+        raise T.Broken("von Neumann n-D construction changed: " + next((f"{x!r} != {y!r}" for x, y in zip(got, want) if x != y), "length"))
     return f"Definition gen_vn_deltas : list Z := {_zl(deltas)}."
 
 
 def c_dispatch():
     fn = T._find_func(_cls(GRID, "Grid"), "_connect_cells")
-    got = [ast.unparse(x) for x in _stmts(fn)]
-    if got != ["if self._ndims == 2:\n    self._connect_cells_2d()\nelse:\n    self._connect_cells_nd()"]:
+    if _norm(fn) != ["if self._ndims == 2:\n    self._connect_cells_2d()\nelse:\n    self._connect_cells_nd()"]:
         raise T.Broken("Grid._connect_cells dispatch changed")
-    init = T._find_func(_cls(GRID, "Grid"), "__init__")
-    lines = [ast.unparse(x) for x in _stmts(init)]
+    lines = _norm(T._find_func(_cls(GRID, "Grid"), "__init__"))
     for need in ("self._ndims = len(dimensions)", "self.dimensions = dimensions", "self.torus = torus",
-                 "coordinates = product(*(range(dim) for dim in self.dimensions))", "self._connect_cells()"):
+                 "v0 = product(*(range(v2) for v2 in self.dimensions))", "self._connect_cells()"):
         if need not in lines:
             raise T.Broken(f"Grid.__init__ no longer contains `{need}`")
+    if "self._cells = {v1: self.cell_klass(v1, capacity, random=self.random) for v1 in v0}" not in lines:
+        raise T.Broken("Grid.__init__: cells are no longer created in the order of the coordinate product")
+    order = [lines.index(x) for x in ("self.torus = torus", "self.dimensions = dimensions", "self._ndims = len(dimensions)",
+                                      "v0 = product(*(range(v2) for v2 in self.dimensions))", "self._connect_cells()")]
+    if order != sorted(order):
+        raise T.Broken("Grid.__init__: order of the statements the model relies on changed")
     return "Definition gen_grid_dispatch_skeleton_ok : bool := true."
 
 
 # ------------------------------------------------------------------ Cell.connect / disconnect, Cell._neighborhood
 def c_cell_connect():
     k = _cls(CELL, "Cell")
-    con = [ast.unparse(x) for x in _stmts(T._find_func(k, "connect"))]
-    dis = [ast.unparse(x) for x in _stmts(T._find_func(k, "disconnect"))]
     if _args(T._find_func(k, "connect")) != ["self", "other", "key"]:
         raise T.Broken("parameters of Cell.connect")
+    con = _norm(T._find_func(k, "connect"))
+    dis = _norm(T._find_func(k, "disconnect"))
     if con != ["if key is None:\n    key = other.coordinate", "self.connections[key] = other"]:
         raise T.Broken("Cell.connect is no longer `connections[key] = other`")
-    if dis != ["keys_to_remove = [k for k, v in self.connections.items() if v == other]",
-               "for key in keys_to_remove:\n    del self.connections[key]"]:
-        raise T.Broken("Cell.disconnect changed")
+    if dis != ["v0 = [v2 for v2, v3 in self.connections.items() if v3 == other]",
+               "for v1 in v0:\n    del self.connections[v1]"]:
+        raise T.Broken("Cell.disconnect changed: " + repr(dis)[:200])
     return "Definition gen_cell_connect_skeleton_ok : bool := true."
 
 
@@ -263,7 +312,8 @@ def _nbhd_parts():
     if _args(fn) != ["self", "radius", "include_center"]:
         raise T.Broken("parameters of Cell._neighborhood")
     st = _stmts(fn)
-    if len(st) != 4 or not all(isinstance(x, ast.If) for x in st[:3]) or ast.unparse(st[3]) != "return neighborhood":
+    if len(st) != 4 or not all(isinstance(x, ast.If) for x in st[:3]) \
+            or not (isinstance(st[3], ast.Return) and isinstance(st[3].value, ast.Name)):
         raise T.Broken("expected: if <invalid>: raise; if <base>: ... else: ...; if <centre>: ... else: ...; return neighborhood")
     return fn, st
 
@@ -275,8 +325,8 @@ def _rec_call(st):
     if len(calls) != 1:
         raise T.Broken("expected exactly one recursive call")
     c = calls[0]
-    if not (isinstance(c.func.value, ast.Name) and c.func.value.id == "neighbor"):
-        raise T.Broken("recursive call is not on `neighbor`")
+    if not (isinstance(c.func.value, ast.Name) and c.func.value.id != "self"):
+        raise T.Broken("recursive call is not on the loop variable")   # which variable: fixed by the skeleton (v1)
     args = {}
     names = ["radius", "include_center"]
     for i, a in enumerate(c.args):
@@ -311,39 +361,39 @@ def c_nbhd_conditions():
             f"Definition gen_nbhd_rec_center (radius : Z) (include_center : bool) : bool := {rc}.")
 
 
-NBHD_SKELETON = [
-    "if <invalid>:\n    raise ValueError('radius must be larger than one')",
-    "if <base>:\n    neighborhood: dict[Cell, list[Agent]] = {neighbor: neighbor._agents for neighbor in self.connections.values()}\n"
-    "else:\n    neighborhood = {}\n    for neighbor in self.connections.values():\n        neighborhood.update(<rec>)",
-    "if <centre>:\n    neighborhood[self] = self._agents\nelse:\n    neighborhood.pop(self, None)",
-    "return neighborhood",
+NBHD_SKELETON = [   # modulo local names, the message text, docstrings, comments, annotations
+    "if INVALID:\n    raise ValueError(<msg>)",
+    "if BASE:\n    v0 = {v1: v1._agents for v1 in self.connections.values()}\n"
+    "else:\n    v0 = {}\n    for v1 in self.connections.values():\n        v0.update(REC)",
+    "if CENTRE:\n    v0[self] = self._agents\nelse:\n    v0.pop(self, None)",
+    "return v0",
 ]
 
 
 def c_nbhd_skeleton():
     import copy
 
-    fn, st = _nbhd_parts()
-    st = copy.deepcopy(st)
+    fn0, _ = _nbhd_parts()
+    fn = copy.deepcopy(fn0)
+    st = _stmts(fn)
     call, _ = _rec_call(st)
     for n in ast.walk(st[1]):
         for f, v in ast.iter_fields(n):
             if isinstance(v, list):
                 for i, x in enumerate(v):
                     if x is call:
-                        v[i] = ast.Name(id="<rec>", ctx=ast.Load())
-    for s, nm in zip(st[:3], ("<invalid>", "<base>", "<centre>")):
-        s.test = ast.Name(id=nm, ctx=ast.Load())
-    got = [ast.unparse(x) for x in st]
+                        v[i] = ast.Name(id="REC", ctx=ast.Load())
+    for x, nm in zip(st[:3], ("INVALID", "BASE", "CENTRE")):
+        x.test = ast.Name(id=nm, ctx=ast.Load())
+    got = _norm(fn, keep=("INVALID", "BASE", "CENTRE", "REC"))
     if got != NBHD_SKELETON:
         diff = [f"{a!r} != {b!r}" for a, b in zip(got, NBHD_SKELETON) if a != b] or ["length"]
         raise T.Broken("statement skeleton of Cell._neighborhood changed: " + diff[0][:300])
     k = _cls(CELL, "Cell")
-    g = [ast.unparse(x) for x in _stmts(T._find_func(k, "get_neighborhood"))]
+    g = _norm(T._find_func(k, "get_neighborhood"))
     if g != ["return CellCollection[Cell](self._neighborhood(radius=radius, include_center=include_center), random=self.random)"]:
         raise T.Broken("Cell.get_neighborhood changed")
-    p = [ast.unparse(x) for x in _stmts(T._find_func(k, "neighborhood"))]
-    if p != ["return self.get_neighborhood()"]:
+    if _norm(T._find_func(k, "neighborhood")) != ["return self.get_neighborhood()"]:
         raise T.Broken("Cell.neighborhood changed")
     d = T._find_func(k, "get_neighborhood").args.defaults
     d2 = T._find_func(k, "_neighborhood").args.defaults
@@ -422,8 +472,9 @@ def _pair_loop(outer, want_iter):
 def c_vor_connect():
     fn = T._find_func(_cls(VOR, "VoronoiGrid"), "_connect_cells")
     st = _stmts(fn)
-    if len(st) != 4 or ast.unparse(st[0]) != "self.triangulation = Delaunay()" \
-            or ast.unparse(st[1]) != "for centroid in self.centroids_coordinates:\n    self.triangulation.add_point(centroid)":
+    nrm = _norm(fn)
+    if len(st) != 4 or len(nrm) != 4 or nrm[0] != "self.triangulation = Delaunay()" \
+            or nrm[1] != "for v0 in self.centroids_coordinates:\n    self.triangulation.add_point(v0)":
         raise T.Broken("expected: triangulation = Delaunay(); add every centroid; two connect loops")
     parts = []
     try:
@@ -468,14 +519,13 @@ def c_net_connect():
         raise T.Broken(f"Network._connect_single_cell outside the translated subset: {e}") from None
     if kt != "Z" or kkk != "Z":
         raise T.Broken("node ids are expected to be integers in the model")
-    init = [ast.unparse(x) for x in _stmts(T._find_func(k, "__init__"))]
+    init = _norm(T._find_func(k, "__init__"))
     want = ["super().__init__(capacity=capacity, random=random, cell_klass=cell_klass)", "self.G = G",
-            "for node_id in self.G.nodes:\n    self._cells[node_id] = self.cell_klass(node_id, capacity, random=self.random)",
+            "for v0 in self.G.nodes:\n    self._cells[v0] = self.cell_klass(v0, capacity, random=self.random)",
             "self._connect_cells()"]
     if init != want:
         raise T.Broken("Network.__init__ changed")
-    cc = [ast.unparse(x) for x in _stmts(T._find_func(k, "_connect_cells"))]
-    if cc != ["for cell in self.all_cells:\n    self._connect_single_cell(cell)"]:
+    if _norm(T._find_func(k, "_connect_cells")) != ["for v0 in self.all_cells:\n    self._connect_single_cell(v0)"]:
         raise T.Broken("Network._connect_cells changed")
     return ("(* one (key, target) per graph neighbour, in the order G.neighbors yields them *)\n"
             f"Definition gen_net_connect (neighbors : list Z) : list (Z * Z) :=\n"
